@@ -810,14 +810,76 @@ func typeName(t types.Type) string {
 }
 
 func binop(op token.Token, x, y *Term, T types.Type) *Term {
-	// cmp.Compare(a, b) OP 0 is a OP b (ordered integer / string operands)
+	// cmp.Compare(a, b) OP c with c in {-1, 0, 1} is an order relation between a and b
 	switch op {
 	case token.EQL, token.NEQ, token.LSS, token.GTR, token.LEQ, token.GEQ:
-		if x.Op == "call" && x.Name == "cmp.Compare" && len(x.Args) == 2 && y.IsConst() && y.Name == "0" {
-			return binop(op, x.Args[0], x.Args[1], T)
-		}
-		if y.Op == "call" && y.Name == "cmp.Compare" && len(y.Args) == 2 && x.IsConst() && x.Name == "0" {
-			return binop(op, y.Args[1], y.Args[0], T)
+		for side := 0; side < 2; side++ {
+			cm, k := x, y
+			if side == 1 {
+				cm, k = y, x
+			}
+			c, isC := k.Int()
+			if cm.Op != "call" || cm.Name != "cmp.Compare" || len(cm.Args) != 2 || !isC || c < -1 || c > 1 {
+				continue
+			}
+			// which outcomes v of Compare(a,b) satisfy (v OP c) resp. (c OP v)
+			lt, eq, gt := false, false, false
+			for _, v := range []int64{-1, 0, 1} {
+				l, r := v, c
+				if side == 1 {
+					l, r = c, v
+				}
+				var holds bool
+				switch op {
+				case token.EQL:
+					holds = l == r
+				case token.NEQ:
+					holds = l != r
+				case token.LSS:
+					holds = l < r
+				case token.GTR:
+					holds = l > r
+				case token.LEQ:
+					holds = l <= r
+				case token.GEQ:
+					holds = l >= r
+				}
+				if holds {
+					switch v {
+					case -1:
+						lt = true
+					case 0:
+						eq = true
+					case 1:
+						gt = true
+					}
+				}
+			}
+			a, b := cm.Args[0], cm.Args[1]
+			not := func(t *Term) *Term {
+				if t.IsConst() {
+					return boolTerm(!t.IsTrue())
+				}
+				return &Term{Op: "un", Name: "!", Args: []*Term{t}, Typ: T}
+			}
+			switch {
+			case lt && eq && gt:
+				return boolTerm(true)
+			case !lt && !eq && !gt:
+				return boolTerm(false)
+			case lt && !eq && !gt:
+				return binop(token.LSS, a, b, T)
+			case !lt && eq && !gt:
+				return binop(token.EQL, a, b, T)
+			case !lt && !eq && gt:
+				return binop(token.LSS, b, a, T)
+			case lt && eq && !gt:
+				return not(binop(token.LSS, b, a, T))
+			case !lt && eq && gt:
+				return not(binop(token.LSS, a, b, T))
+			default: // lt && gt
+				return not(binop(token.EQL, a, b, T))
+			}
 		}
 	}
 	xs, ys := x.String(), y.String()
